@@ -57,6 +57,9 @@ func consistent(g *Grammar) (err error) {
 	for _, tok := range g.LexPart.TokDefsList {
 		defs[tok.id] = true
 	}
+	if err = reservedNames(g); err != nil {
+		return
+	}
 	for _, prod := range g.SyntaxPart.ProdList {
 		if len(prod.Body.Symbols) == 0 {
 			return fmt.Errorf("empty production alternative: Maybe you are missing the \"empty\" keyword in %q", prod)
@@ -91,4 +94,37 @@ func consistent(g *Grammar) (err error) {
 		}
 	}
 	return
+}
+
+// INVALID and ␚ (end of input) are the spellings of the two terminals every token map starts
+// with. Symbols are compared by spelling throughout (FIRST sets, items, token map), so a
+// production or string literal spelled like one of them would silently be taken for it.
+var reserved = map[string]bool{"INVALID": true, "␚": true}
+
+// reservedNames reports a production or string literal spelled INVALID or ␚, a string literal
+// spelled like a production of the grammar (declared before or after the use), and an "empty"
+// that does not stand alone in its alternative.
+func reservedNames(g *Grammar) error {
+	prods := make(map[string]bool)
+	for _, prod := range g.SyntaxPart.ProdList {
+		prods[prod.Id] = true
+	}
+	for _, prod := range g.SyntaxPart.ProdList {
+		if reserved[prod.Id] {
+			return fmt.Errorf("production name %q is reserved", prod.Id)
+		}
+		for _, s := range prod.Body.Symbols {
+			if lit, ok := s.(SyntaxStringLit); ok {
+				if reserved[lit.SymbolString()] {
+					return fmt.Errorf("string literal %s in production %q is spelled like the reserved symbol %s", lit, prod.Id, lit.SymbolString())
+				}
+				if prods[lit.SymbolString()] {
+					return fmt.Errorf("string literal %s in production %q is spelled like the production %s", lit, prod.Id, lit.SymbolString())
+				}
+			} else if s.SymbolString() == "empty" && len(prod.Body.Symbols) > 1 {
+				return fmt.Errorf("\"empty\" must be the only symbol of its alternative in production %q", prod.Id)
+			}
+		}
+	}
+	return nil
 }
